@@ -207,17 +207,19 @@ def run(prop="C13", propose=False, replay=None):
     timer = Timer()
     thorough = tier() == "thorough"
     rnd = random.Random(seed() + 13)
-    mcs = [tlc.model_check("Sharing.tla", "Sharing_copy.cfg", workers=4)]
+    mcs = [tlc.model_check("Sharing.tla", "Sharing_copy5.cfg" if thorough else "Sharing_copy.cfg", workers=(16 if thorough else 4))]
     irs = base_irs()
     scs = []
     seqs = [s for n in (1, 2, 3) for s in itertools.product(EMIT_OPS, repeat=n)]
     l4 = list(itertools.product(EMIT_OPS, repeat=4))
     seqs += l4 if thorough else rnd.sample(l4, 300)
+    if thorough:      # and every sequence of five calls on the two descriptions that carry a return entry
+        l5 = list(itertools.product(EMIT_OPS, repeat=5))
     for name, ir in irs.items():
-        for s in seqs:
+        for s in seqs + (l5 if thorough and name in ("plain_ret", "body_ret") else []):
             scs.append({"kind": "ir", "irname": name, "ir": ir, "ops": list(s)})
     for shape in AST_SHAPES:
-        for n in (1, 2, 3, 4):
+        for n in ((1, 2, 3, 4, 5, 6) if thorough else (1, 2, 3, 4)):
             for s in itertools.product(PARSE_OPS, repeat=n):
                 scs.append({"kind": "ast", "irname": "ast" if shape == "doc" else "ast-" + shape, "shape": shape, "ops": list(s)})
     if replay:
